@@ -348,6 +348,7 @@ def check_c10(run):
               'rule "\u4e2d" begin end', 'rule "b" begin \u4e2d end', 'rule "b" begin x = 1 end @', 'rule "b" begin x = 1 end rule',
               'rule "b" begin x = 1 end\x00', 'RULE "b" BEGIN END',
               # tokens behind the last rule
+              '\ufeffrule "b" begin x = 1 end', 'rule "b" begin x = 1 end\ufeff', '\ufeff',
               'rule "b" begin x = 1 end xyz', 'rule "b" begin x = 1 end end', 'rule "b" begin x = 1 end }', 'rule "b" begin x = 1 end 5',
               'rule "b" begin x = 1 end "s"', 'rule "b" begin x = 1 end begin', 'rule "b" begin x = 1 end x = 2', 'rule "b" begin end ;', 'rule "b" "d" salience -0 begin end', 'rule "b" salience 99999999999999999999 begin end',
               'rule "" begin end', 'rule "b" "" begin end', 'rule "b" begin m[""] = 1 end', 'rule "b" begin x = 1e5 y = .5 z = 5. end',
